@@ -28,6 +28,8 @@ def run(run):
             sc += "Reset\nWalk 1700 1 %d\nWalk 1400 -1 %d\nWalk 1400 1 %d\n" % (pat + 2, pat, pat + 4)
         sc += "Reset\nWalk 33500 1 6\nWalk 1400 -1 1\nWalk 1400 1 3\nWalk 1400 -1 5\n"
         sc += "Reset\nWalk 33500 -1 6\nWalk 1400 1 2\nWalk 1400 -1 4\n"
+    for n, d in ((190, 1), (767, 1), (3000, -1), (800, -1), (40000 if run.thorough() else 9000, 1)):
+        sc += "Reset\nWalk 37 1 2\nNoDetent %d %d\nWalk 50 -1 3\n" % (n, d)      # long stretches that never visit the detent
     sc += "Reset\nRandom %d %d\n" % (run.seed, 600000 if run.thorough() else 60000)
     tr = exec_script(run, exe, [], sc, run.path("walk.ndjson"), "walks", timeout=600)
     check_trace(run, "walks", "TraceRotenc", "TraceRotenc.cfg", tr, timeout=1500)
